@@ -4,7 +4,7 @@
 From RM Require Import Model.EncSpec Model.EncObjCarry Model.EncPathSpec Proofs.EncFmt Proofs.EncImage Proofs.EncEdit
      Proofs.EncRound Proofs.EncObjectsRT Proofs.Enc2Samples Proofs.Enc2SampleShape Proofs.MapLevelFacts
      Proofs.MapLevelConcrete Proofs.Enc2Slider Proofs.FramingFacts Proofs.DecodersFacts
-     Proofs.Enc2Framing Proofs.Enc3Framing Proofs.Enc3Timing Proofs.Enc3Objects Proofs.Enc3Chrono.
+     Proofs.Enc2Framing Proofs.Enc3Framing Proofs.Enc3Timing Proofs.Enc3Objects Proofs.Enc3Chrono Proofs.Enc3NodeInv.
 From RM Require Import Model.EncTimingSpec Proofs.ControlPointsFacts Proofs.EncTimingParse Proofs.EncTimingRT
      Proofs.Enc2Timing Proofs.Enc2SvRT.
 From RM Require Import Model.DrvEnc.
@@ -27,6 +27,47 @@ Qed.
 Lemma ho_run_objects_nil mode ls st' rs raws :
   ho_run (ho_create mode) ls = Done (st', rs) -> ho_objects st' = ho_objects (ho_create mode) ++ raws -> ho_objects st' = raws.
 Proof. intros _ H. exact H. Qed.
+
+(* [final_rel] for the objects of a DECODED map: the two image premises of the slider clause are
+   facts (Proofs/Enc3NodeInv.v), what remains is the class D31 -- a node with a file name *)
+Definition final_rel_decoded (lm : Curve.Libm) (h o : HitObject) : Prop :=
+  match h_kind h with
+  | KSlider s =>
+      exists c s',
+        slider_curve lm s = Done c /\
+        h_start o = h_start h /\ h_kind o = KSlider s' /\
+        sl_pos s' = sl_pos s /\
+        sl_control_points s' = sl_control_points s /\
+        sl_repeat_count s' = sl_repeat_count s /\
+        length (sl_node_samples s') = Z.to_nat (sl_repeat_count s + 2) /\
+        sl_expected_dist s' = reread_len (written_of (sl_expected_dist s) c) /\
+        slider_curve lm s' = Done c /\
+        sl_mode s' = sl_mode s /\
+        sl_new_combo s' = sl_new_combo s /\
+        sl_combo_offset s' = (if sl_new_combo s then sl_combo_offset s else 0) /\
+        carry_samples (h_samples o) = carry_samples (h_samples h) /\
+        (forall i l, (i < Z.to_nat (sl_repeat_count s + 2))%nat -> nth_error (sl_node_samples s) i = Some l ->
+           first_file l = None ->
+           exists l2, nth_error (sl_node_samples s') i = Some l2 /\ carry_samples l2 = carry_samples l)
+  | _ => carry_object o = carry_object h
+  end.
+
+Lemma final_rel_strengthen lm h o : nodes_image h -> final_rel lm h o -> final_rel_decoded lm h o.
+Proof.
+  unfold nodes_image, final_rel, final_rel_decoded. destruct (h_kind h) as [ci|s|s|hd]; try (intros _ H; exact H).
+  intros (Hn & Hf) (c & s' & Q1 & Q2 & Q3 & Q4 & Q5 & Q6 & Q7 & Q8 & Q9 & Q10 & Q11 & Q12 & Q13 & Q14).
+  exists c, s'. repeat (split; [assumption|]). split; [exact (Q13 Hf)|].
+  intros i l Hi Hl Hnf. apply (Q14 i l Hi Hl); [|exact Hnf].
+  rewrite Forall_forall in Hn. exact (Hn l (nth_error_In _ _ Hl)).
+Qed.
+
+Lemma final_rel_strengthen_all lm : forall objs out,
+  Forall nodes_image objs -> Forall2 (final_rel lm) objs out -> Forall2 (final_rel_decoded lm) objs out.
+Proof.
+  induction objs as [|h r IH]; intros out Hn H; inversion H; subst; constructor.
+  - apply final_rel_strengthen; [exact (Forall_inv Hn)|assumption].
+  - apply IH; [exact (Forall_inv_tail Hn)|assumption].
+Qed.
 
 Section Map.
   Variable lm : Curve.Libm.
@@ -119,12 +160,13 @@ Section Map.
      (forall t, sv_at c2 t = sv_at c0 t) /\
      (forall t, kiai_at c2 t = kiai_at c0 t) /\
      (forall t, scroll_at c2 t = scroll_at c0 t)) /\
-    Forall2 (final_rel lm) (hov_hit_objects (bmv_ho m)) (hov_hit_objects (bmv_ho m2)).
+    Forall2 (final_rel_decoded lm) (hov_hit_objects (bmv_ho m)) (hov_hit_objects (bmv_ho m2)).
   Proof.
     intros Hl Hd H23 Ec Hcls Hobj He Hd2. cbv zeta. split; [|split].
     - exact (decoded_encoding_simple_sections fmt_f64 fmt_f32 fmt_int Hfmt dist events lines m ls dist2 m2 Hl Hd H23 He Hd2).
     - exact (decoded_encoding_timing fmt_f64 fmt_f32 fmt_int Hfmt Hlead dist events lines m c ls dist2 m2 Hl Hd H23 Ec Hcls He Hd2).
-    - exact (decoded_encoding_objects events lines m c ls dist2 m2 Hl Hd H23 Ec Hcls Hobj He Hd2).
+    - apply final_rel_strengthen_all; [exact (decoded_nodes_image dist lines m Hl Hd)|].
+      exact (decoded_encoding_objects events lines m c ls dist2 m2 Hl Hd H23 Ec Hcls Hobj He Hd2).
   Qed.
 
   (* the same with the property's own hypothesis in place of [combo_chain]: the accepted hit-object
@@ -150,7 +192,7 @@ Section Map.
      (forall t, sv_at c2 t = sv_at c0 t) /\
      (forall t, kiai_at c2 t = kiai_at c0 t) /\
      (forall t, scroll_at c2 t = scroll_at c0 t)) /\
-    Forall2 (final_rel lm) (hov_hit_objects (bmv_ho m)) (hov_hit_objects (bmv_ho m2)).
+    Forall2 (final_rel_decoded lm) (hov_hit_objects (bmv_ho m)) (hov_hit_objects (bmv_ho m2)).
   Proof.
     intros Hl Hd H23 Hch Ec Hcls Hobj He Hd2.
     exact (round_trip_decoded_map events lines m c ls dist2 m2 Hl Hd H23 Ec Hcls
